@@ -469,7 +469,8 @@ theorem detachA_rk (hU : ∀ u, U u → T u) (s : Server) (i : Nat) (withErr : B
 
 /-- the publish does not retain on a topic of `U`: its retain flag is off, or its topic is given in the packet
     (not through an alias) and is outside `U` -/
-def pubAvoids (U : Str → Prop) (retain : Bool) (topic : Str) : Prop := retain = true → topic ≠ [] ∧ ¬ U topic
+def pubAvoids (U : Str → Prop) (retain : Bool) (topic : Str) : Prop :=
+  retain = true → ∀ u, U u → topic ≠ [] ∧ topic ≠ u
 
 theorem processPublish_rk (s : Server) (i : Nat) (qos : Nat) (dup retain : Bool) (id : Nat)
     (topic payload : Str) (msgExpiry : Nat) (alias : Option Nat) (hnw : NW T s) (hav : pubAvoids U retain topic) :
@@ -570,13 +571,14 @@ theorem processPublish_rk (s : Server) (i : Nat) (qos : Nat) (dup retain : Bool)
                 by_cases hr : pk4.retain = true
                 · rw [if_pos hr]
                   have hr' : retain = true := by rw [← hret2, ← hpk3.1, ← hpk4.1]; exact hr
-                  obtain ⟨hne, hnu⟩ := hav hr'
+                  refine hs2.trans (retainMsg_rk s2 pk4 hs2.1 (fun hu => ?_))
+                  obtain ⟨hne, hnu⟩ := hav hr' _ hu
                   have ht : pk4.topic = topic := by
                     rw [hpk4.2, hpk3.2]
                     rcases htop2 with h | h
                     · exact h
                     · exact absurd h hne
-                  exact hs2.trans (retainMsg_rk s2 pk4 hs2.1 (by rw [ht]; exact hnu))
+                  exact hnu ht.symm
                 · rw [if_neg hr]; exact hs2
               split
               · split
@@ -1175,6 +1177,194 @@ theorem step_rk (hU : ∀ u, U u → T u) (s : Server) (op : Op) (hnw : NW T s) 
     split
     · exact RK.refl hnw
     · exact (RK.refl hnw).upd rfl rfl rfl
+
+
+/-- the ops that can add a will: CONNECT without a retained will on a topic of `T` -/
+def Op.willAvoids (T : Str → Prop) : Op → Prop
+  | .connect _ k => k.avoids T
+  | .connectHold _ k _ => k.avoids T
+  | _ => True
+
+theorem Op.avoids_empty {op : Op} (h : op.willAvoids T) (hk : ∀ kind t, op = .tick kind t → kind ≠ "retained") :
+    op.avoids T (fun _ => False) := by
+  cases op with
+  | connect conn k => exact h
+  | connectHold conn k st => exact h
+  | recv conn pk => cases pk <;> first | trivial | exact fun _ _ hu => hu.elim
+  | recvCut conn pk => cases pk <;> first | trivial | exact fun _ _ hu => hu.elim
+  | inlinePublish topic payload r q => exact fun _ _ hu => hu.elim
+  | tick kind t => exact hk kind t rfl
+  | drop _ => trivial
+  | dropHold _ => trivial
+  | dropHoldEarly _ => trivial
+  | release _ => trivial
+  | inlineSubscribe _ _ => trivial
+  | inlineUnsubscribe _ _ => trivial
+
+end
+
+/-! ### the retained-store housekeeping -/
+
+/-- a retained message is due for removal by `tickRetained` at time `now` -/
+def retDue (caps : Caps) (now : Int) (m : Msg) : Bool :=
+  (m.ver == 5 && m.expiry > 0 && m.expiry < now) || (caps.maxMessageExpiry > 0 && now - m.created > caps.maxMessageExpiry)
+
+/-- one iteration of `tickRetained` -/
+def trStep (now : Int) (s : Server) (e : Str × Msg) : Server :=
+  if retDue s.caps now e.2 then
+    { s with rmsgs := assocDel s.rmsgs e.1, topics := { s.topics with retained := assocDel s.topics.retained e.1 } }
+  else s
+
+theorem tickRetainedLoop_eq (s : Server) (now : Int) :
+    tickRetained.tickRetainedLoop s now = s.rmsgs.foldl (trStep now) s := rfl
+
+theorem trStep_caps (now : Int) (s : Server) (e : Str × Msg) : (trStep now s e).caps = s.caps := by
+  unfold trStep; split <;> rfl
+theorem trStep_objs (now : Int) (s : Server) (e : Str × Msg) : (trStep now s e).objs = s.objs := by
+  unfold trStep; split <;> rfl
+theorem trStep_willDelayed (now : Int) (s : Server) (e : Str × Msg) : (trStep now s e).willDelayed = s.willDelayed := by
+  unfold trStep; split <;> rfl
+
+theorem trStep_look (now : Int) (s : Server) (e : Str × Msg) (t : Str) :
+    assocGet (trStep now s e).rmsgs t = if retDue s.caps now e.2 = true ∧ t = e.1 then none else assocGet s.rmsgs t := by
+  unfold trStep
+  by_cases h : retDue s.caps now e.2 = true
+  · rw [if_pos h]
+    show assocGet (assocDel s.rmsgs e.1) t = _
+    rw [assocGet_assocDel]
+    by_cases ht : t = e.1
+    · rw [if_pos ht, if_pos ⟨h, ht⟩]
+    · rw [if_neg ht, if_neg (fun x => ht x.2)]
+  · rw [if_neg h, if_neg (fun x => h x.1)]
+
+theorem trFold_caps (now : Int) (L : List (Str × Msg)) (b : Server) : (L.foldl (trStep now) b).caps = b.caps := by
+  induction L generalizing b with
+  | nil => rfl
+  | cons x xs ih => rw [List.foldl_cons, ih, trStep_caps]
+
+theorem trFold_objs (now : Int) (L : List (Str × Msg)) (b : Server) :
+    (L.foldl (trStep now) b).objs = b.objs ∧ (L.foldl (trStep now) b).willDelayed = b.willDelayed := by
+  induction L generalizing b with
+  | nil => exact ⟨rfl, rfl⟩
+  | cons x xs ih => rw [List.foldl_cons]; exact ⟨(ih _).1.trans (trStep_objs ..), (ih _).2.trans (trStep_willDelayed ..)⟩
+
+/-- housekeeping only removes -/
+theorem trFold_mono (now : Int) (L : List (Str × Msg)) (b : Server) (t : Str) :
+    assocGet (L.foldl (trStep now) b).rmsgs t = none ∨ assocGet (L.foldl (trStep now) b).rmsgs t = assocGet b.rmsgs t := by
+  induction L generalizing b with
+  | nil => exact Or.inr rfl
+  | cons x xs ih =>
+    rw [List.foldl_cons]
+    rcases ih (trStep now b x) with h | h
+    · exact Or.inl h
+    · rw [h, trStep_look]
+      split
+      · exact Or.inl rfl
+      · exact Or.inr rfl
+
+/-- … and removes every entry that is due -/
+theorem trFold_gone (now : Int) (L : List (Str × Msg)) (b : Server) (e : Str × Msg) (he : e ∈ L)
+    (hd : retDue b.caps now e.2 = true) : assocGet (L.foldl (trStep now) b).rmsgs e.1 = none := by
+  induction L generalizing b with
+  | nil => cases he
+  | cons x xs ih =>
+    rw [List.foldl_cons]
+    rcases List.mem_cons.mp he with h | h
+    · subst h
+      rcases trFold_mono now xs (trStep now b e) e.1 with h | h
+      · exact h
+      · rw [h, trStep_look, if_pos ⟨hd, rfl⟩]
+    · exact ih _ h (by rw [trStep_caps]; exact hd)
+
+/-- … and nothing that is not due -/
+theorem trFold_kept (now : Int) (L : List (Str × Msg)) (b : Server) (t : Str)
+    (hk : ∀ e ∈ L, e.1 = t → retDue b.caps now e.2 = false) :
+    assocGet (L.foldl (trStep now) b).rmsgs t = assocGet b.rmsgs t := by
+  induction L generalizing b with
+  | nil => rfl
+  | cons x xs ih =>
+    rw [List.foldl_cons, ih _ (fun e he ht => by rw [trStep_caps]; exact hk e (List.mem_cons_of_mem _ he) ht), trStep_look]
+    by_cases hx : t = x.1
+    · rw [if_neg (fun h => by rw [hk x List.mem_cons_self hx.symm] at h; cases h.1)]
+    · rw [if_neg (fun h => hx h.2)]
+
+theorem assocGet_some_mem {α β} [DecidableEq α] (m : List (α × β)) (k : α) (v : β) (h : assocGet m k = some v) :
+    (k, v) ∈ m := by
+  induction m with
+  | nil => cases h
+  | cons x xs ih =>
+    obtain ⟨a, b⟩ := x
+    unfold assocGet at h
+    by_cases hak : a = k
+    · rw [if_pos hak] at h
+      cases h; subst hak
+      exact List.mem_cons_self
+    · rw [if_neg hak] at h
+      exact List.mem_cons_of_mem _ (ih h)
+
+theorem tickRetained_rmsgs (s : Server) (now : Int) :
+    (tickRetained s now).rmsgs = (s.rmsgs.foldl (trStep now) s).rmsgs := rfl
+
+/-- **the housekeeping removes a due retained message** -/
+theorem tickRetained_gone (s : Server) (now : Int) (t : Str) (m : Msg) (hm : assocGet s.rmsgs t = some m)
+    (hd : retDue s.caps now m = true) : assocGet (tickRetained s now).rmsgs t = none := by
+  rw [tickRetained_rmsgs]
+  exact trFold_gone now s.rmsgs s (t, m) (assocGet_some_mem _ _ _ hm) hd
+
+theorem tickRetained_mono (s : Server) (now : Int) (t : Str) :
+    assocGet (tickRetained s now).rmsgs t = none ∨ assocGet (tickRetained s now).rmsgs t = assocGet s.rmsgs t := by
+  rw [tickRetained_rmsgs]
+  exact trFold_mono now s.rmsgs s t
+
+theorem tickRetained_kept (s : Server) (now : Int) (t : Str)
+    (hk : ∀ e ∈ s.rmsgs, e.1 = t → retDue s.caps now e.2 = false) :
+    assocGet (tickRetained s now).rmsgs t = assocGet s.rmsgs t := by
+  rw [tickRetained_rmsgs]
+  exact trFold_kept now s.rmsgs s t hk
+
+theorem tickRetained_nw {T : Str → Prop} (s : Server) (now : Int) (hnw : NW T s) : NW T (tickRetained s now) := by
+  have h := trFold_objs now s.rmsgs s
+  have ho : (tickRetained s now).objs = s.objs := h.1
+  have hw : (tickRetained s now).willDelayed = s.willDelayed := h.2
+  exact ⟨fun j => by rw [getObj_of_objs_eq ho j]; exact hnw.1 j, fun e he => hnw.2 e (hw ▸ he)⟩
+
+theorem step_tick_retained (s : Server) (now : Int) : step s (.tick "retained" now) = (tickRetained s now, []) := by
+  rw [step]
+  rw [if_neg (by decide), if_pos (by decide)]
+
+/-! ### along histories -/
+
+section
+variable {T U : Str → Prop}
+
+/-- every op keeps "no retained will on a topic of `T`", unless it is a CONNECT bringing one -/
+theorem NW_step (s : Server) (op : Op) (hnw : NW T s) (hw : op.willAvoids T) : NW T (step s op).1 := by
+  by_cases hk : ∃ now, op = .tick "retained" now
+  · obtain ⟨now, rfl⟩ := hk
+    rw [step_tick_retained]
+    exact tickRetained_nw s now hnw
+  · refine (step_rk (T := T) (U := fun _ => False) (fun _ h => h.elim) s op hnw (Op.avoids_empty hw ?_)).1
+    intro kind t e hkind
+    exact hk ⟨t, by rw [e, hkind]⟩
+
+theorem NW_run (s : Server) (ops : List Op) (hnw : NW T s) (hw : ∀ op ∈ ops, op.willAvoids T) : NW T (run s ops) := by
+  induction ops generalizing s with
+  | nil => exact hnw
+  | cons op ops ih =>
+    exact ih _ (NW_step s op hnw (hw op List.mem_cons_self)) (fun o ho => hw o (List.mem_cons_of_mem _ ho))
+
+theorem run_rk (hU : ∀ u, U u → T u) (s : Server) (ops : List Op) (hnw : NW T s) (hav : ∀ op ∈ ops, op.avoids T U) :
+    RK T U s (run s ops) := by
+  induction ops generalizing s with
+  | nil => exact RK.refl hnw
+  | cons op ops ih =>
+    have h1 := step_rk hU s op hnw (hav op List.mem_cons_self)
+    exact h1.trans (ih _ h1.1 (fun o ho => hav o (List.mem_cons_of_mem _ ho)))
+
+theorem run_append_rk (s : Server) (a b : List Op) : run s (a ++ b) = run (run s a) b := by
+  unfold run; rw [List.foldl_append]
+
+theorem run_cons_rk (s : Server) (op : Op) (ops : List Op) : run s (op :: ops) = run (step s op).1 ops := rfl
 
 end
 
